@@ -102,8 +102,10 @@ def trim (s : Bytes) : Bytes :=
 namespace Code
 /-- the connection loop: `String::from_utf8_lossy(bytes).to_uppercase()` -/
 def normLoop (name : Bytes) : Bytes := upperLossy name
-/-- `process_frame`: `String::from_utf8_lossy(bytes).trim().to_uppercase()` -/
-def normFrame (name : Bytes) : Bytes := upperLossy (trim name)
+/-- `process_frame`: `String::from_utf8_lossy(bytes).to_uppercase()` like the frame loop (`trimmed = false`, the code since
+    40429aa: a name with blanks around it is an unknown command everywhere), or `.trim().to_uppercase()` (`trimmed = true`,
+    the code before: `Gen.frameNameTrimmed`) -/
+def normFrame (trimmed : Bool) (name : Bytes) : Bytes := if trimmed then upperLossy (trim name) else upperLossy name
 end Code
 
 /-! ### UTF-8 validity (`String::from_utf8`) -/
@@ -204,6 +206,9 @@ structure Cfg where
   allow : List (Bytes × Arm)
   normLoop : Bytes → Bytes
   normFrame : Bytes → Bytes
+  /-- `responses.push(response); if should_close { break; }`: the frames behind QUIT in the same read are neither executed
+      nor answered (`Gen.quitEndsBatch`; false = the code before 2edcdbe, which executed them all and closed afterwards) -/
+  quitEndsBatch : Bool := false
 
 def stateOf (cs : List Conn) (c : Nat) : Option CState :=
   match cs with
@@ -232,15 +237,15 @@ def armOfString (s : String) : Arm :=
 
 /-- `Cfg` from the generated tables. -/
 def Cfg.ofTables (preGate : List String) (allow : List (String × String))
-    (normLoop normFrame : Bytes → Bytes) : Cfg :=
+    (normLoop normFrame : Bytes → Bytes) (quitEndsBatch : Bool := false) : Cfg :=
   { preGate := preGate.map nameBytes
     allow := allow.map fun p => (nameBytes p.1, armOfString p.2)
-    normLoop := normLoop, normFrame := normFrame }
+    normLoop := normLoop, normFrame := normFrame, quitEndsBatch := quitEndsBatch }
 
 /-- The tree as pinned when this model was written: SYNC and PSYNC run before the gate. -/
 def Cfg.pinned : Cfg :=
   { preGate := [SYNC, PSYNC], allow := [(AUTH, .auth), (PING, .ping), (QUIT, .okOnly)]
-    normLoop := Code.normLoop, normFrame := Code.normFrame }
+    normLoop := Code.normLoop, normFrame := Code.normFrame true }
 
 /-- The repaired order of processing: nothing runs before the gate. -/
 def Cfg.repaired (cfg : Cfg) : Cfg := { cfg with preGate := [] }
@@ -335,6 +340,11 @@ def runFrames (cfg : Cfg) (h : Dispatch D R) (s : Server D) (c : Nat) : List Req
     let (s2, as) := runFrames cfg h s1 c rs
     (s2, a :: as)
 
+/-- `if command == "QUIT" { should_close = true; }` in the frame loop: the name as the LOOP normalises it, whoever sends it -/
+def isQuit (cfg : Cfg) : Req → Bool
+  | .cmd name _ => cfg.normLoop name == QUIT
+  | _ => false
+
 /-- `process_connection` since the deferred-frames repair (c0e7003): the loop stops at a frame that left the
     connection `Blocked` (a BLPOP/BRPOP that blocked); the rest of the batch is kept in
     `Connection::deferred_frames` and is executed — frame by frame through this same function, so through the
@@ -342,25 +352,25 @@ def runFrames (cfg : Cfg) (h : Dispatch D R) (s : Server D) (c : Nat) : List Req
     Returns the frames kept back.  In the event language below a deferred execution is simply a later
     `batch` of the same connection (`[batch c pre, wake c, batch c rest]`), so every theorem about histories
     covers it; `deferral_needs_authentication` (Props/C17) shows that nothing is ever kept back for a
-    connection that has not authenticated (it cannot block). -/
+    connection that has not authenticated (it cannot block).
+    Since 2edcdbe (`cfg.quitEndsBatch`) the loop also stops behind a QUIT: what follows it in the same read is dropped —
+    neither executed nor answered, for authenticated and unauthenticated connections alike (`nothing_runs_behind_quit`). -/
 def runFramesD (cfg : Cfg) (h : Dispatch D R) (s : Server D) (c : Nat) : List Req → Server D × List (Reply D R) × List Req
   | [] => (s, [], [])
   | r :: rs =>
     let (s1, a) := processConnectionFrame cfg h s c r
-    if stateOf s1.conns c = some .blocked then (s1, [a], rs)
+    if cfg.quitEndsBatch && isQuit cfg r then (s1, [a], [])
+    else if stateOf s1.conns c = some .blocked then (s1, [a], rs)
     else
       let (s2, as, d) := runFramesD cfg h s1 c rs
       (s2, a :: as, d)
 
-def isQuit (cfg : Cfg) : Req → Bool
-  | .cmd name _ => cfg.normLoop name == QUIT
-  | _ => false
-
-/-- `process_connection`: all frames of the read are processed, then `should_close` (a QUIT anywhere in the
-    batch) moves the connection to `Closing`. -/
+/-- `process_connection`: the frames of the read are processed by the loop above (which may stop early: behind QUIT, at a
+    command that blocked), then `should_close` (a QUIT among the frames that were processed) moves the connection to
+    `Closing`.  The frames kept back are not part of the state here: they are a later `batch` event. -/
 def processBatch (cfg : Cfg) (h : Dispatch D R) (s : Server D) (c : Nat) (reqs : List Req) : Server D × List (Reply D R) :=
-  let (s', rs) := runFrames cfg h s c reqs
-  (if reqs.any (isQuit cfg) then { s' with conns := setState s'.conns c .closing } else s', rs)
+  let r := runFramesD cfg h s c reqs
+  (if (reqs.take r.2.1.length).any (isQuit cfg) then { r.1 with conns := setState r.1.conns c .closing } else r.1, r.2.1)
 
 /-- What the event loop does, as far as connection states are concerned. -/
 inductive Event where
